@@ -682,10 +682,11 @@ pub fn hay_for(rng: &mut Rng, pat: &str, want: bool) -> String {
         };
         // now and then one inner character is replaced by a line-break-like character (what `.`,
         // `$`, `\s` and trimming treat specially)
-        let cand = if rng.chance(6) && cand.chars().count() >= 2 {
+        let is_regex = matches!(p.kind, PKind::Regex(_));
+        let cand = if rng.chance(if is_regex { 20 } else { 6 }) && cand.chars().count() >= 2 {
             let n = cand.chars().count();
             let at = rng.below(n);
-            let c = *rng.pick(&['\r', '\n', '\u{85}', '\u{2028}', '\u{b}', '\u{c}', '\t']);
+            let c = *rng.pick(&['\r', '\r', '\r', '\n', '\u{85}', '\u{2028}', '\u{b}', '\u{c}', '\t']);
             cand.chars().enumerate().map(|(i, x)| if i == at { c } else { x }).collect()
         } else {
             cand
